@@ -54,12 +54,13 @@ func hRange15(tag string, lo, hi int) InclusiveRange {
 // weekday/month/year in an inclusive range, day of month in a range whose negative
 // bounds count from the month's end and which is clamped to the month; an absent
 // field matches everything. The fields are those of the instant read in the
-// interval's location: none (UTC) or any fixed offset of whole minutes within +-14h
-// (zone rules with transitions, i.e. the tz database, are outside the claim).
+// interval's location: none (UTC), any fixed offset of whole minutes within +-14h, or a
+// zone whose offset changes once (a daylight-saving transition forwards or backwards
+// at a fixed instant; the tz database itself is outside the claim).
 //
 //vf:quick unwind=12 decisions=400 paths=300000
 //vf:thorough unwind=12 decisions=600 paths=3000000
-//vf:expect reach=contained reach=not-contained reach=zoned
+//vf:expect reach=contained reach=not-contained reach=zoned reach=transition-zone
 func VerifC15_ContainsTime() {
 	t := vfCalendarTime("t")
 	var ti TimeInterval
@@ -115,7 +116,25 @@ func VerifC15_ContainsTime() {
 	// within UTC-14:00..UTC+14:00; the fields are then read in that zone
 	tl := t
 	if vfBool("hasLocation") {
-		zone := time.FixedZone("zone", 60*(vfIntRange("zone.offsetMinutes", 0, 1680)-840))
+		var zone *time.Location
+		if vfBool("zone.hasTransition") {
+			// a zone whose offset changes once, like New York on 2024-03-10 (02:00 -> 03:00
+			// local) or on 2024-11-03 (02:00 -> 01:00 local)
+			if vfBool("zone.fallBack") {
+				zone = vfTransitionZone("fall", time.Date(2024, 11, 3, 6, 0, 0, 0, time.UTC).Unix(), -4*3600, -5*3600)
+			} else {
+				zone = vfTransitionZone("spring", time.Date(2024, 3, 10, 7, 0, 0, 0, time.UTC).Unix(), -5*3600, -4*3600)
+			}
+			// (kept tractable: instants of the year of the transition; the quick tier
+			// combines such zones with the time-of-day and weekday fields only)
+			vfAssume(t.Year() == 2024)
+			if vfTier() == 0 {
+				vfAssume(!hasDOM && !hasMonths && !hasYears)
+			}
+			vfReach("transition-zone")
+		} else {
+			zone = time.FixedZone("zone", 60*(vfIntRange("zone.offsetMinutes", 0, 1680)-840))
+		}
 		ti.Location = &Location{zone}
 		tl = t.In(zone)
 		vfReach("zoned")
